@@ -122,6 +122,7 @@ pub(super) struct Universe {
     pub(super) event_counter: u64,
     pub(super) issued_events: Vec<(usize, String)>,
     pub(super) salt: u64,
+    pub(super) profile: String,
 }
 
 fn pick_amount(rng: &mut ChaChaRng) -> u128 {
@@ -176,7 +177,7 @@ impl Universe {
         accts.push(Acct::new("SPARE2", rng));
         let sudo = 8;
         let ibc_sudo = 9;
-        let nvals = rng.gen_range(1..=4);
+        let nvals = if _profile == "validators" { rng.gen_range(1..=3) } else { rng.gen_range(1..=4) };
         let validators = (0..nvals).map(|i| (Acct::new(&format!("V{i}"), rng), rng.gen_range(1..=100u32))).collect();
         let assets: Vec<Denom> = vec![
             "nria".parse().unwrap(),
@@ -205,6 +206,7 @@ impl Universe {
             event_counter: 0,
             issued_events: vec![],
             salt: rng.next_u64(),
+            profile: _profile.to_string(),
         }
     }
 
@@ -631,13 +633,14 @@ async fn gen_action<S: StateRead>(
                 }
                 _ => {
                     let (v, _) = &u.validators[rng.gen_range(0..u.validators.len())];
-                    let (vk, name) = if rng.gen_bool(0.6) {
+                    let vprof = u.profile == "validators";
+                    let (vk, name) = if rng.gen_bool(if vprof { 0.75 } else { 0.6 }) {
                         (v.key.verification_key(), v.name.clone())
                     } else {
                         let k = rng.gen_range(10..12);
                         (u.accts[k].key.verification_key(), u.accts[k].name.clone())
                     };
-                    let power = if rng.gen_bool(0.35) { 0 } else { rng.gen_range(1..100) };
+                    let power = if rng.gen_bool(if vprof { 0.5 } else { 0.35 }) { 0 } else { rng.gen_range(1..100) };
                     Action::ValidatorUpdate(ValidatorUpdate { power, verification_key: vk, name: name.parse().unwrap() })
                 }
             };
@@ -817,6 +820,33 @@ pub(super) async fn generate_block_txs<S: StateRead>(
                 next_nonce.insert(signer, base + 1);
             }
             out.push(b);
+        }
+    }
+    // validators profile: try to remove every validator within one block (one bundle, or one transaction each)
+    if profile == "validators" && rng.gen_bool(0.25) {
+        if let Some(s) = key_for(u, state, "sudo", None).await {
+            let removals: Vec<Action> = u
+                .validators
+                .iter()
+                .map(|(a, _)| Action::ValidatorUpdate(ValidatorUpdate { power: 0, verification_key: a.key.verification_key(), name: a.name.parse().unwrap() }))
+                .collect();
+            let base = match next_nonce.get(&s) {
+                Some(n) => *n,
+                None => state.get_account_nonce(&u.accts[s].addr).await.unwrap_or(0),
+            };
+            if rng.gen_bool(0.5) {
+                if let Some(b) = build_tx(s, &u.accts[s].key, base, removals, "remove_all_validators:bundle") {
+                    next_nonce.insert(s, base + 1);
+                    out.push(b);
+                }
+            } else {
+                for (k, a) in removals.into_iter().enumerate() {
+                    if let Some(b) = build_tx(s, &u.accts[s].key, base + k as u32, vec![a], "remove_all_validators:separate") {
+                        next_nonce.insert(s, base + k as u32 + 1);
+                        out.push(b);
+                    }
+                }
+            }
         }
     }
     // replay of the exact bytes of an earlier committed transaction
